@@ -24,16 +24,17 @@ import (
 )
 
 type scen struct {
-	Name   string   `json:"name"`
-	Spec   string   `json:"spec"`
-	N      int      `json:"n"`
-	Round  int      `json:"round"`            // the broadcast round in which the equivocation happens
-	Equiv  string   `json:"equiv"`            // equivocating party
-	Group2 []string `json:"group2"`           // honest parties that receive the second payload
-	Mode   string   `json:"mode"`             // own: later messages carry the equivocator's own echo hash; tailored: each recipient gets the hash it expects; nil: no hash
-	Proto  string   `json:"proto,omitempty"`  // real protocol under a twin equivocator (real.go); empty: vproto
-	Search string   `json:"search,omitempty"` // full | dev<k> (real protocols)
-	Reach  string   `json:"reach,omitempty"`  // split: each honest party hears one instance; both: the parties of group 2 hear both instances
+	Name    string   `json:"name"`
+	Spec    string   `json:"spec"`
+	N       int      `json:"n"`
+	Round   int      `json:"round"`             // the broadcast round in which the equivocation happens
+	Equiv   string   `json:"equiv"`             // equivocating party
+	Group2  []string `json:"group2"`            // honest parties that receive the second payload
+	Mode    string   `json:"mode"`              // own: later messages carry the equivocator's own echo hash; tailored: each recipient gets the hash it expects; nil: no hash
+	Proto   string   `json:"proto,omitempty"`   // real protocol under a twin equivocator (real.go); empty: vproto
+	Search  string   `json:"search,omitempty"`  // full | dev<k> (real protocols)
+	Payload string   `json:"payload,omitempty"` // "" = the second payload replaces the first; dupkeys = ONE map that holds every entry twice (second payload first, original last)
+	Reach   string   `json:"reach,omitempty"`   // split: each honest party hears one instance; both: the parties of group 2 hear both instances
 }
 
 var ids = []party.ID{"a", "b", "c", "d"}
@@ -75,8 +76,12 @@ func build(sc scen) *netsim.Scenario {
 			if cbor.Unmarshal(m.Data, &b) != nil {
 				return m
 			}
+			orig := b.Payload
 			b.Payload = alt(b.Payload)
 			c.Data, _ = cbor.Marshal(&b)
+			if sc.Payload == "dupkeys" {
+				c.Data = dupKeys(b.Nr, b.Payload, orig)
+			}
 			return c
 		}
 		// the p2p message of an X round must stay bound to the broadcast this recipient gets
@@ -134,6 +139,23 @@ func build(sc scen) *netsim.Scenario {
 		return m
 	}
 	return ns
+}
+
+// dupKeys encodes {Nr, Payload: first, Nr, Payload: last}: a CBOR map holding every entry twice.  A decoder
+// into a struct and a generic decoder need not agree on which of two equal keys wins; if the echo is computed
+// over one reading and the round consumes the other, the two readings are an equivocation the echo cannot see.
+func dupKeys(nr uint16, first, last []byte) []byte {
+	enc := func(v interface{}) []byte { b, _ := cbor.Marshal(v); return b }
+	out := []byte{0xa4}
+	out = append(out, enc("Nr")...)
+	out = append(out, enc(nr)...)
+	out = append(out, enc("Payload")...)
+	out = append(out, enc(first)...)
+	out = append(out, enc("Nr")...)
+	out = append(out, enc(nr)...)
+	out = append(out, enc("Payload")...)
+	out = append(out, enc(last)...)
+	return out
 }
 
 func checker(sc scen, echo, other *int64) netsim.Checker {
@@ -213,7 +235,9 @@ func scenarios() []scen {
 		spec string
 		n    int
 	}
-	cfgs := []cfg{{"BB", 3}, {"XB", 3}, {"BP", 3}, {"BXB", 3}, {"NB", 3}, {"BNP", 3}, {"YN", 3}}
+	cfgs := []cfg{{"BB", 3}, {"XB", 3}, {"BP", 3}, {"BXB", 3}, {"NB", 3}, {"BNP", 3}, {"YN", 3}, {"BBBB", 3}, {"BBBBB", 3}}
+	// the deep shapes are there for the later rounds (state kept per round must not go stale): only rounds >= 4
+	minRound := map[string]int{"BBBB": 4, "BBBBB": 4}
 	modes := []string{"own", "tailored", "nil"}
 	if vkit.Thorough() {
 		cfgs = append(cfgs, cfg{"BA", 3}, cfg{"XPB", 3}, cfg{"BB", 4}, cfg{"XB", 4})
@@ -221,6 +245,9 @@ func scenarios() []scen {
 	for _, c := range cfgs {
 		R := len(c.spec) + 1
 		for r := 2; r < R; r++ { // a further round must follow
+			if r < minRound[c.spec] {
+				continue
+			}
 			if k := c.spec[r-2]; k != 'B' && k != 'X' && k != 'N' && k != 'Y' {
 				continue
 			}
@@ -235,10 +262,17 @@ func scenarios() []scen {
 						honest = append(honest, string(id))
 					}
 				}
-				for _, g2 := range partitions(honest) {
+				for pi, g2 := range partitions(honest) {
 					for _, m := range modes {
+						if len(c.spec) >= 4 && (m != "own" || pi > 0) && !vkit.Thorough() {
+							continue // deep shapes, quick tier: one partition, own echo
+						}
 						l = append(l, scen{Name: fmt.Sprintf("%s/n%d/r%d/equiv=%s/g2=%s/%s", c.spec, c.n, r, e, strings.Join(g2, ""), m),
 							Spec: c.spec, N: c.n, Round: r, Equiv: e, Group2: g2, Mode: m})
+						if c.spec == "BB" || c.spec == "NB" {
+							l = append(l, scen{Name: fmt.Sprintf("%s/n%d/r%d/equiv=%s/g2=%s/%s/dupkeys", c.spec, c.n, r, e, strings.Join(g2, ""), m),
+								Spec: c.spec, N: c.n, Round: r, Equiv: e, Group2: g2, Mode: m, Payload: "dupkeys"})
+						}
 					}
 				}
 			}
